@@ -397,6 +397,8 @@ def run(chk, ctx):
     chk.trusted = ["TKA summaries of the token primitives (verified against their bodies)", "i64::from_str_radix rejects values that do not fit"]
     L.need("TKA")
     block_rules(chk, P)
+    from . import lexrules
+    lexrules.spelling_rule(chk, P, ("Loop", "While", "End", "Bits", "Declare", "LParen", "RParen", "Comma", "Semi"))
     row_rules(chk, P, L)
     factor_rules(chk, P, L)
     header_rules(chk, P)
